@@ -431,6 +431,7 @@ def _as_document(c):
                 for k, (cls, i) in enumerate(refs)]
     if not evidence:
         evidence = [srdocs.evidence_dataset(base + '.0', base + '.0.1', base + '.0.1.1', srreports.CT)]
+    evidence += list(c['pool'].get('library', []))         # the images of the report's image library are referenced, too
     doc = hd.sr.Comprehensive3DSR(evidence=evidence, content=c['rep'][0], series_instance_uid=base + '.5', series_number=5,
                                   sop_instance_uid=base + '.5.1', instance_number=1, manufacturer='verif')
     bio = io.BytesIO()
@@ -460,6 +461,8 @@ def _check_report(ctx, c, reqs, pending, only=None, spec_reqs=None, spec_pending
     else:
         ctx.fail(base_case, f'report cannot be written and parsed back: {rd[2]}', site='srread')
     model_groups = [_model_params(g) for g in groups]
+    o_ = c['pool'].get('report_options') or {}
+    ctx.hist('report_options', f'library={o_.get("library")}/procedures={o_.get("procedures")}/title={o_.get("title")}')
     _check_layout(ctx, c, reqs, pending)
     exhaustive = n <= 2 and c['idx'] % 5 == 0
     sweep_no = [c['idx']]
@@ -846,8 +849,30 @@ def _third_party(ctx, reqs3, pending3, only_idx=None):
                              'legacy-names'])
             _perturb(r, cont, what, pool)
             kinds.append(what)
+        # report level: no group at all (the container emptied / removed), or the container also holds items that are no
+        # measurement groups (a comment, a container of another name) - "0..n groups"
+        rl = r.choice(['none'] * 5 + ['no-groups', 'no-container', 'foreign-items'])
+        root_ = rep[0]
+        im_ = [it for it in root_.ContentSequence if _raw_code(it.ConceptNameCodeSequence) == '126010|DCM']
+        if rl == 'no-groups' and im_:
+            im_[0].ContentSequence = hd.sr.ContentSequence([])
+        elif rl == 'no-container' and im_:
+            root_.ContentSequence = hd.sr.ContentSequence([it for it in root_.ContentSequence if it is not im_[0]], is_root=False)
+        elif rl == 'foreign-items' and im_:
+            extra = [hd.sr.TextContentItem(name=hd.sr.CodedConcept('121106', 'DCM', 'Comment'), value='no group', relationship_type='CONTAINS'),
+                     hd.sr.ContainerContentItem(name=hd.sr.CodedConcept('126011', 'DCM', 'Derived Imaging Measurements'), relationship_type='CONTAINS')]
+            extra[1].ContentSequence = hd.sr.ContentSequence([hd.sr.TextContentItem(
+                name=hd.sr.CodedConcept('121106', 'DCM', 'Comment'), value='x', relationship_type='CONTAINS')])
+            seq_ = list(im_[0].ContentSequence)
+            seq_.insert(r.randrange(len(seq_) + 1), extra[0])
+            seq_.insert(r.randrange(len(seq_) + 1), extra[1])
+            im_[0].ContentSequence = hd.sr.ContentSequence(seq_)
+        if rl != 'none':
+            kinds = kinds + ['report:' + rl]
+        conts = _group_containers(rep)
+        uids_all = [g['tracking_uid'] for g in groups]
         model_groups = [_real_items(c) for c in conts]
-        uids = [g['tracking_uid'] for g in groups]
+        uids = [_stored_uid(c) for c in conts]
         for method in ('planar', 'volumetric', 'image'):
             values = _filter_values(r, groups, pool, method)
             for f in itertools.islice(_combos(r, method, values, False), 10):
@@ -1334,7 +1359,7 @@ def _fixtures(ctx, reqs3, pending3):
                           'got': sorted(ks), 'stored_with_site': sorted(want)}, site='fixture/finding-site')
 
 
-HISTORY_EDITS = ['replace', 'swap', 'delete-append', 'delete', 'append', 'none']
+HISTORY_EDITS = ['replace', 'swap', 'delete-append', 'delete', 'append', 'delete-all', 'none']
 
 
 def _histories(ctx, reqs3, pending3, only_idx=None):
@@ -1377,8 +1402,11 @@ def _histories(ctx, reqs3, pending3, only_idx=None):
             elif edit == 'delete-append' and pos and spare:
                 del seq[r.choice(pos)]
                 seq.append(spare.pop())
-            elif edit == 'delete' and len(pos) >= 2:
+            elif edit == 'delete' and pos:
                 del seq[r.choice(pos)]
+            elif edit == 'delete-all':
+                for n_ in reversed(pos):           # a report that holds no group any more
+                    del seq[n_]
             elif edit == 'append' and spare:
                 seq.append(spare.pop())
             conts = _group_containers(rep)
